@@ -13,6 +13,11 @@ fn civil(z: i64) -> (i64, u32, u32) {
     let d = (doy - (153 * mp + 2) / 5 + 1) as u32; let m = if mp < 10 { mp + 3 } else { mp - 9 } as u32;
     (if m <= 2 { y + 1 } else { y }, m, d)
 }
+fn days_from_civil(y: i64, m: u32, d: u32) -> i64 {
+    let y = if m <= 2 { y - 1 } else { y }; let era = y.div_euclid(400); let yoe = y.rem_euclid(400);
+    let mp = (m as i64 + 9) % 12; let doy = (153 * mp + 2) / 5 + d as i64 - 1; let doe = yoe * 365 + yoe / 4 - yoe / 100 + doy;
+    era * 146097 + doe - 719468
+}
 fn num(r: Result<V, slac::stdlib::NativeError>) -> Option<f64> { match r { Ok(V::Number(x)) => Some(x), _ => None } }
 fn n(x: f64) -> V { V::Number(x) }
 fn mix(d: u64, x: f64) -> u64 { d.wrapping_mul(0x100000001B3).wrapping_add(x.to_bits()) }
@@ -49,9 +54,15 @@ pub fn run_tmrange(tk: &mut Toks) -> Option<String> {
             if !ok { bad(format!("{h}:{mi}:{s}.{ml} decodes to {:?}:{:?}:{:?}.{:?}", num(t::hour(&[n(x)])), num(t::minute(&[n(x)])), num(t::second(&[n(x)])), num(t::millisecond(&[n(x)]))), &mut viol); }
         },
         // date x time combinations (pseudo-random from `start`), through both construction routes and inc_month
-        "c" => { let mut st = start as u64; let mut next = || { st = st.wrapping_add(0x9E3779B97F4A7C15); let mut z = st; z = (z ^ (z >> 30)).wrapping_mul(0xBF58476D1CE4E5B9); z = (z ^ (z >> 27)).wrapping_mul(0x94D049BB133111EB); z ^ (z >> 31) };
+        // "n": the same checks on dates NEAR THE EPOCH (half within 512 days of 1970-01-01, half in 1778..2161) with half of the times on
+        // whole seconds: there the day number is small, so the fraction keeps many bits and any second rounding step shows
+        "c" | "n" => { let near = kind == "n"; let mut st = start as u64; let mut next = || { st = st.wrapping_add(0x9E3779B97F4A7C15); let mut z = st; z = (z ^ (z >> 30)).wrapping_mul(0xBF58476D1CE4E5B9); z = (z ^ (z >> 27)).wrapping_mul(0x94D049BB133111EB); z ^ (z >> 31) };
             for _ in 0..cnt {
-                let z = (next() % 3652059) as i64 - 719162; let ms = (next() % 86400000) as i64; let k = (next() % 48001) as i64 - 24000;
+                let (r1, r2, r3) = (next(), next(), next());
+                let z = if !near { (r1 % 3652059) as i64 - 719162 } else if (r1 >> 40) & 1 == 0 { (r1 % 1025) as i64 - 512 } else { (r1 % 140001) as i64 - 70000 };
+                let ms = if near && (r2 >> 40) & 1 == 0 { ((r2 % 86400) * 1000) as i64 } else { (r2 % 86400000) as i64 };
+                let k = if near { (r3 % 241) as i64 - 120 } else { (r3 % 48001) as i64 - 24000 };
+                let exact = |z: i64, ms: i64| ((z * 86400000 + ms) as f64) / 86400000.0;   // one correctly rounded division of an exact integer
                 let (y, m, d) = civil(z); let (h, mi, s, ml) = (ms / 3600000, ms / 60000 % 60, ms / 1000 % 60, ms % 1000);
                 let (xd, xt) = match (num(t::encode_date(&[n(y as f64), n(m as f64), n(d as f64)])), num(t::encode_time(&[n(h as f64), n(mi as f64), n(s as f64), n(ml as f64)]))) { (Some(a), Some(b)) => (a, b), _ => { bad("encode failed".into(), &mut viol); continue; } };
                 let x = xd + xt; digest = mix(digest, x);
@@ -60,7 +71,8 @@ pub fn run_tmrange(tk: &mut Toks) -> Option<String> {
                 if !ok { bad(format!("{y}-{m}-{d} {h}:{mi}:{s}.{ml} (date+time) not recovered"), &mut viol); continue; }
                 if ml == 0 { let txt = format!("{:04}-{:02}-{:02} {:02}:{:02}:{:02}", y, m, d, h, mi, s);
                     match num(t::string_to_datetime(&[V::String(txt.clone())])) { Some(x2) => { digest = mix(digest, x2);
-                        if num(t::second(&[n(x2)])) != Some(s as f64) || num(t::day(&[n(x2)])) != Some(d as f64) || t::date_to_string(&[V::String("%Y-%m-%d %H:%M:%S".into()), n(x2)]) != Ok(V::String(txt.clone())) { bad(format!("string route {txt}"), &mut viol); } }
+                        if num(t::second(&[n(x2)])) != Some(s as f64) || num(t::day(&[n(x2)])) != Some(d as f64) || t::date_to_string(&[V::String("%Y-%m-%d %H:%M:%S".into()), n(x2)]) != Ok(V::String(txt.clone())) { bad(format!("string route {txt}"), &mut viol); }
+                        else if x2 != exact(z, ms) { bad(format!("string_to_datetime({txt}) = {x2:?} is not the number of that date and time ({:?})", exact(z, ms)), &mut viol); } }
                         None => bad(format!("string_to_datetime({txt}) failed"), &mut viol) } }
                 // inc_month: whole months, day clamped, time of day kept
                 if let Some(x3) = num(t::inc_month(&[n(x), n(k as f64)])) { digest = mix(digest, x3);
@@ -68,7 +80,8 @@ pub fn run_tmrange(tk: &mut Toks) -> Option<String> {
                     let dim = match m3 { 1 | 3 | 5 | 7 | 8 | 10 | 12 => 31, 4 | 6 | 9 | 11 => 30, _ => if y3 % 4 == 0 && (y3 % 100 != 0 || y3 % 400 == 0) { 29 } else { 28 } };
                     let ok = num(t::year(&[n(x3)])) == Some(y3 as f64) && num(t::month(&[n(x3)])) == Some(m3 as f64) && num(t::day(&[n(x3)])) == Some(d.min(dim) as f64)
                         && num(t::hour(&[n(x3)])) == Some(h as f64) && num(t::minute(&[n(x3)])) == Some(mi as f64) && num(t::second(&[n(x3)])) == Some(s as f64) && num(t::millisecond(&[n(x3)])) == Some(ml as f64);
-                    if !ok { bad(format!("inc_month({y}-{m}-{d} {h}:{mi}:{s}.{ml}, {k})"), &mut viol); } }
+                    if !ok { bad(format!("inc_month({y}-{m}-{d} {h}:{mi}:{s}.{ml}, {k})"), &mut viol); }
+                    else { let z3 = days_from_civil(y3, m3, d.min(dim)); if x3 != exact(z3, ms) { bad(format!("inc_month({y}-{m}-{d} {h}:{mi}:{s}.{ml}, {k}) = {x3:?} is not exactly the number of the shifted date and time ({:?})", exact(z3, ms)), &mut viol); } } }
                 else { bad(format!("inc_month({y}-{m}-{d}, {k}) failed"), &mut viol); }
             } }
         // rejections: dates that do not exist and out-of-range time components must be error values
